@@ -154,6 +154,12 @@ func checkC13(c *Ctx, r *Report) {
 			sortedVars := map[string]bool{}
 			nSortedRanges := 0
 			ast.Inspect(fl, func(m ast.Node) bool {
+				if as, ok := m.(*ast.AssignStmt); ok && len(as.Lhs) == 1 && len(as.Rhs) == 1 {
+					if rc, isCall := ast.Unparen(as.Rhs[0]).(*ast.CallExpr); isCall && strings.HasPrefix(calleeOfCall(info, rc), "slices.Sorted") {
+						sortedVars[exprString(as.Lhs[0])] = true // a sorted copy
+						ss = append(ss, w.pos(rc.Pos()))
+					}
+				}
 				if sc, ok := m.(*ast.CallExpr); ok {
 					cn := calleeOfCall(info, sc)
 					if (strings.HasPrefix(cn, "sort.") || strings.HasPrefix(cn, "slices.Sort")) && len(sc.Args) > 0 {
